@@ -157,3 +157,13 @@ N("castfit-leading_zeros-form", ["C07"],
 N("castfit-direct-limb-compare", ["C07"],
   [("src/from.rs", "                if value.bit_len() > CAPACITY {\n                    return Err(Self::Error::Overflow(",
     "                if value.limbs[0] > (Self::MAX as u64) || value.bit_len() > 64 {\n                    return Err(Self::Error::Overflow(")])
+
+# ---- R-TOTAL/overflow-checks
+B("ovf-postgres-i16-add", ["C17"],
+  [("src/support/postgres.rs", "|| i32::from(digits) > i32::from(exponent) + 1\n", "|| digits > exponent + 1\n")], "Overflow(Add")
+B("ovf-bytes-len-minus", ["C08"],
+  [("src/bytes.rs", "        let mut c = bytes.len();\n        while i < bytes.len() {\n            c -= 1;",
+    "        let mut c = bytes.len() - 1;\n        while i < bytes.len() {\n            c -= 0;")], "Overflow(Sub")
+N("ovf-from_base_be-casts", ["C09", "C17"],
+  [("src/base_convert.rs", "                carry += u128::from(*limb) * u128::from(base);\n                *limb = carry as u64;\n                carry >>= 64;\n            }\n            if carry > 0 || (LIMBS != 0",
+    "                carry = carry + (*limb as u128) * (base as u128);\n                *limb = carry as u64;\n                carry >>= 64;\n            }\n            if carry > 0 || (LIMBS != 0")])
